@@ -52,6 +52,7 @@ type c05Unit struct {
 }
 
 type c05ProgUnit struct {
+	child  bool // run yaegi in a child process (the host may die)
 	name   string
 	src    string
 	probes []*c05Probe
@@ -75,6 +76,8 @@ func (u *c05Univ) selRegion(t int, name string) (g, y c05Sel, region string) {
 		return g, y, ""
 	}
 	switch {
+	case y.Kind == "crash":
+		region = "embed-cycle"
 	case y.Kind == "ambig":
 		region = "field-method-depth"
 	case (y.Kind == "field" || y.Kind == "method") && !u.pathAllEmbedded(t, y.Path, y.Kind == "field"):
@@ -116,9 +119,9 @@ func runC05(args []string) error {
 	}
 	sm := newSummary("C05")
 	r := newRng(*seed)
-	nMain, nRegion := 150, 60
+	nMain, nRegion, nCyc, nHost := 100, 40, 4, 60
 	if *tier == "thorough" {
-		nMain, nRegion = 5000, 1500
+		nMain, nRegion, nCyc, nHost = 5000, 1500, 60, 3000
 	}
 	t0 := time.Now()
 	st := &c05State{sm: sm, distinct: distinctSet{}}
@@ -135,9 +138,30 @@ func runC05(args []string) error {
 	for i := 0; i < nRegion; i++ {
 		units = append(units, &c05Unit{idx: len(units), stream: "region", u: genC05Universe(r.fork(), regionKnobs[i%len(regionKnobs)])})
 	}
+	for i := 0; i < nCyc; i++ {
+		// structs embedding pointers to each other (cycles): every program runs in a child process
+		var u *c05Univ
+		rr := r.fork()
+		for try := 0; try < 50; try++ {
+			u = genC05Universe(rr.fork(), c05Knobs{fieldShadow: 40, methShadow: 50, ptrCycle: 60})
+			if u.cyclic() {
+				break
+			}
+		}
+		units = append(units, &c05Unit{idx: len(units), stream: "cycle", u: u})
+	}
 	rngs := make([]*rng, len(units))
 	for i := range rngs {
 		rngs[i] = r.fork()
+	}
+	// host stream and witnesses
+	for i := 0; i < nHost; i++ {
+		h := genC05Host(r.fork())
+		st.extras = append(st.extras, &c05Extra{id: 900000000 + i*1000, name: fmt.Sprintf("h%d", i), src: h.source(), input: h.describe()})
+	}
+	for i, w := range c05Witnesses {
+		st.extras = append(st.extras, &c05Extra{id: 990000000 + i*1000, name: w.Name, region: w.Region, child: w.Child, src: w.Src, expect: w.Expect, wit: &c05Witnesses[i],
+			input: map[string]any{"level": "witness", "name": w.Name}})
 	}
 	// ids are assigned deterministically per unit: unit k owns [k*100000, (k+1)*100000)
 	parallelMap(len(units), 0, func(i int) {
@@ -147,6 +171,7 @@ func runC05(args []string) error {
 		return err
 	}
 	st.collect(units, *dump)
+	units = append(units, st.collectExtras(*dump)...)
 	if err := st.writeCases(*out, units); err != nil {
 		return err
 	}
@@ -158,7 +183,24 @@ func runC05(args []string) error {
 	return sm.write(*out)
 }
 
+// an extra program (host stream, witnesses): package main source, run by yaegi and, as a package
+// of the shared reference binary, by compiled Go
+type c05Extra struct {
+	id     int
+	name   string
+	region string
+	child  bool
+	src    string
+	expect string // witnesses only
+	wit    *c05Witness
+	input  map[string]any
+	y      outcome
+	refOut string
+	refEnd string
+}
+
 type c05State struct {
+	extras   []*c05Extra
 	mu       sync.Mutex
 	sm       *summary
 	distinct distinctSet
@@ -277,6 +319,10 @@ func (st *c05State) prepare(un *c05Unit, r *rng) {
 			}
 		}
 	}
+	if u.cyclic() {
+		// recursive struct types: only the lookups are exercised (the fixed witness w_embed_cycle runs a program)
+		return
+	}
 	st.buildPrograms(un, r, newID)
 }
 
@@ -343,6 +389,26 @@ func (st *c05State) runAll(units []*c05Unit) error {
 		files["main.go"] = mainSrc.String()
 		gp = append(gp, goProg{Name: name, Files: files})
 	}
+	{
+		files := map[string]string{}
+		var mainSrc strings.Builder
+		mainSrc.WriteString("package main\n\nimport (\n\t\"fmt\"\n")
+		for _, e := range st.extras {
+			fmt.Fprintf(&mainSrc, "\t\"ref/refx/%s\"\n", e.name)
+			src := strings.Replace(e.src, "package main", "package "+e.name, 1)
+			src = strings.Replace(src, "func main() {", "func Run() {", 1)
+			files[e.name+"/u.go"] = src
+		}
+		mainSrc.WriteString(")\n\nfunc main() {\n")
+		for _, e := range st.extras {
+			fmt.Fprintf(&mainSrc, "\tfmt.Println(\"==== %s\")\n\t%s.Run()\n", e.name, e.name)
+		}
+		mainSrc.WriteString("}\n")
+		files["main.go"] = mainSrc.String()
+		if len(st.extras) > 0 {
+			gp = append(gp, goProg{Name: "refx", Files: files})
+		}
+	}
 	var refErr error
 	var ref map[string]outcome
 	var wg sync.WaitGroup
@@ -352,11 +418,50 @@ func (st *c05State) runAll(units []*c05Unit) error {
 		ref, refErr = goRefBatch(gp, 120*time.Second, false)
 	}()
 	parallelMap(len(progs), 0, func(i int) {
+		if progs[i].child {
+			progs[i].y = runYaegiChild(progs[i].src, 20*time.Second)
+			if strings.HasPrefix(progs[i].y.End, "host-crash:") {
+				progs[i].y.End = "host-crash"
+			}
+			return
+		}
 		progs[i].y = runYaegi(progs[i].src, yaegiOpts{Timeout: 20 * time.Second})
+	})
+	parallelMap(len(st.extras), 0, func(i int) {
+		e := st.extras[i]
+		if e.child {
+			e.y = runYaegiChild(e.src, 20*time.Second)
+			if strings.HasPrefix(e.y.End, "host-crash:") {
+				e.y.End = "host-crash"
+			}
+			return
+		}
+		e.y = runYaegi(e.src, yaegiOpts{Timeout: 20 * time.Second})
 	})
 	wg.Wait()
 	if refErr != nil {
 		return refErr
+	}
+	{
+		o := ref["refx"]
+		byName := map[string]*c05Extra{}
+		for _, e := range st.extras {
+			byName[e.name] = e
+			e.refEnd = o.End
+		}
+		var cur *c05Extra
+		for _, l := range strings.SplitAfter(o.Stdout, "\n") {
+			if strings.HasPrefix(l, "==== ") {
+				cur = byName[strings.TrimSpace(l[5:])]
+				continue
+			}
+			if cur != nil {
+				cur.refOut += l
+			}
+		}
+		if len(st.extras) > 0 && o.End != "ok" {
+			st.note("reference binary refx ended with %s", o.End)
+		}
 	}
 	byPkg := map[string]*c05Unit{}
 	for _, un := range withRef {
@@ -414,7 +519,7 @@ func (st *c05State) writeCases(out string, units []*c05Unit) error {
 		b.WriteString(hdr)
 		var items []string
 		for _, un := range units[lo:hi] {
-			if un.ct == nil {
+			if un.u == nil || len(un.cases) == 0 {
 				continue
 			}
 			byKind := map[string][]string{}
